@@ -22,6 +22,7 @@ INVARIANT OuterDurable
 INVARIANT OuterLogical
 INVARIANT OuterErrorReported
 INVARIANT OuterCloseClean
+INVARIANT OuterRetAsSpecified
 PROPERTY RefinesIo
 POSTCONDITION TraceAccepted
 CHECK_DEADLOCK FALSE
